@@ -408,8 +408,8 @@ CHECKS["C13"] = dict(
           '(gradsafe) arbitrary stop lists (unsorted, out of range, INT32 limits), degenerate geometry, singular transforms under'
           ' ASan with a per-case watchdog. Non-trivial = a checked row crosses a stop image or a repeat seam.'),
     jobs=[
-        dict(harness="gradients", prop="gradient", cases=T(30000, 500000), procs=T(8, 12)),
-        dict(harness="gradients_asan", prop="gradsafe", cases=T(15000, 300000), procs=T(3, 4), args=["--watchdog", "20"]),
+        dict(harness="gradients", prop="gradient", cases=T(30000, 300000), procs=T(8, 12)),
+        dict(harness="gradients_asan", prop="gradsafe", cases=T(15000, 60000), procs=T(3, 4), args=["--watchdog", "20"]),
         dict(harness="gradients", prop="gradient", cases=T(15000, 200000), procs=T(1, 2), env={"PIXMAN_DISABLE": "fast sse2 ssse3 mmx"}, tag="gradient_general"),
     ],
     floor=T(200000, 3000000), nt_floor=T(50000, 800000),
